@@ -21,15 +21,18 @@ def mkIdna (hints : List (Bytes × Option Bytes)) : Idna :=
       | some r => r
       | none => if d.isEmpty then none else some (marker d) }
 
-/-- find `zq<hex>qz` inside a byte string -/
-partial def findMarker (s : Bytes) : Option Bytes :=
+/-- find `zq<hex>qz` inside a byte string: a probe answer of `idna` that is still unanswered (a host that merely happens to
+    contain such a pattern names a domain that is empty or gets its hint on the next round, and is then passed over) -/
+partial def findMarker (idna : Idna) (s : Bytes) : Option Bytes :=
   match s with
   | 0x7A :: 0x71 :: rest =>
-    let hexpart := rest.takeWhile (fun b => isAsciiDigit b || (97 ≤ b.toNat && b.toNat ≤ 102) || b == 0x2D)
+    let hexpart := rest.takeWhile (fun b => isAsciiDigit b || (97 ≤ b.toNat && b.toNat ≤ 102))
     match rest.drop hexpart.length with
-    | 0x71 :: 0x7A :: _ => some (unhexs (String.fromUTF8! (ByteArray.mk hexpart.toArray)))
-    | _ => findMarker (s.drop 1)
-  | _ :: rest => findMarker rest
+    | 0x71 :: 0x7A :: _ =>
+      let d := unhexs (String.fromUTF8! (ByteArray.mk hexpart.toArray))
+      if !d.isEmpty && idna.toAscii d == some (marker d) then some d else findMarker idna (s.drop 1)
+    | _ => findMarker idna (s.drop 1)
+  | _ :: rest => findMarker idna rest
   | [] => none
 
 def hostKind (u : Url) : Nat :=
@@ -47,7 +50,7 @@ def dumpUrl (idna : Idna) (u : Url) : String :=
   s!"validdomain={if u.host.isSome && verifyDnsLength u.getHostname then 1 else 0}"
 
 def withMarkerCheck (idna : Idna) (u : Url) : String :=
-  match findMarker (u.href ++ [0x20] ++ u.origin idna) with
+  match findMarker idna (u.href ++ [0x20] ++ u.origin idna) with
   | some d => s!"need-idna {hexs d}"
   | none => "ok " ++ dumpUrl idna u
 
@@ -61,7 +64,7 @@ def cmdSpecParse (input base : String) (hintArgs : List String) : String :=
   match b with
   | none => "basefail"
   | some bu =>
-    match bu.bind (fun x => findMarker x.href) with
+    match bu.bind (fun x => findMarker idna x.href) with
     | some d => s!"need-idna {hexs d}"
     | none =>
       match parse idna (unhexs input) bu with
@@ -94,7 +97,7 @@ def seqLoop (idna : Idna) (u : Url) (ops : List String) (acc : String) : String 
     match applyNamed idna u op (unhexs v) with
     | none => "bad-op"
     | some u' =>
-      match findMarker (u'.href ++ [0x20] ++ u'.origin idna) with
+      match findMarker idna (u'.href ++ [0x20] ++ u'.origin idna) with
       | some d => s!"need-idna {hexs d}"
       | none =>
         if op == "copy" || op == "swapcopy" then seqLoop idna u' rest (acc ++ " ;; c")
